@@ -641,6 +641,13 @@ class Progress(JupyterMixin, RenderHook):
                 self._restore_stderr = sys.stderr
                 sys.stderr = FileProxy(self.console, sys.stderr)
 
+    def _flush_redirected_io(self) -> None:
+        """Print what the redirected stdout / stderr still hold."""
+        if self._restore_stdout and isinstance(sys.stdout, FileProxy):
+            sys.stdout.flush()
+        if self._restore_stderr and isinstance(sys.stderr, FileProxy):
+            sys.stderr.flush()
+
     def _disable_redirect_io(self):
         """Disable redirecting of stdout / stderr."""
         if self._restore_stdout:
@@ -686,6 +693,9 @@ class Progress(JupyterMixin, RenderHook):
             try:
                 if self.auto_refresh and refresh_thread is not None:
                     refresh_thread.stop()
+                # a partial line still waiting in the redirected streams is printed while the display is live
+                # (above it), not by the stream's destructor after the final frame
+                self._flush_redirected_io()
                 self.refresh()
                 if self.console.is_terminal:
                     self.console.line()
